@@ -134,6 +134,8 @@ impl RelatedEntities {
             self.graph
                 .edges_connecting(source_node, target_node)
                 .filter(|e| *e.weight() == type_id)
+                // The graph is undirected, so check the direction to keep the opposite relation of the same type.
+                .filter(|e| self.graph.edge_endpoints(e.id()) == Some((source_node, target_node)))
                 .map(|e| e.id()),
         );
 
